@@ -1,0 +1,83 @@
+//go:build verif
+
+// Package verifhook holds observation and perturbation hooks for runtime
+// monitoring. This file is only compiled with the "verif" build tag.
+package verifhook
+
+import (
+	"runtime"
+	"sync/atomic"
+)
+
+// Sites at which Step and Yield are called.
+const (
+	SiteScanToken = iota
+	SiteCompileNode
+	SiteRenderNode
+	SiteLoopIter
+	SiteApplyFilter
+	SiteExprParse
+	SiteCycle
+	SiteTrimWrite
+	SiteDropResolve
+	NumSites
+)
+
+// BudgetExceeded is the panic value raised by Step when the work budget set
+// with SetBudget is exhausted. It deliberately does not implement error.
+type BudgetExceeded struct{ Steps int64 }
+
+var (
+	counts [NumSites]atomic.Int64
+	total  atomic.Int64
+	budget atomic.Int64 // 0 = unlimited
+	yieldN atomic.Uint64
+	yieldP atomic.Uint32 // yield when hash%1024 < yieldP
+)
+
+// Step counts one logical unit of work at site.
+func Step(site int) {
+	counts[site].Add(1)
+	n := total.Add(1)
+	if b := budget.Load(); b > 0 && n > b {
+		budget.Store(0)
+		panic(BudgetExceeded{n})
+	}
+}
+
+// Yield is a schedule-perturbation point.
+func Yield(site int) {
+	counts[site].Add(1)
+	p := yieldP.Load()
+	if p == 0 {
+		return
+	}
+	x := yieldN.Add(0x9e3779b97f4a7c15)
+	x ^= x >> 31
+	x *= 0xbf58476d1ce4e5b9
+	x ^= x >> 29
+	if uint32(x%1024) < p {
+		runtime.Gosched()
+	}
+}
+
+// SetBudget resets the total step counter and sets the budget (0 = unlimited).
+func SetBudget(n int64) { total.Store(0); budget.Store(n) }
+
+// Total returns the steps counted since the last SetBudget.
+func Total() int64 { return total.Load() }
+
+// SetYield sets the probability (in 1/1024) that Yield calls runtime.Gosched.
+func SetYield(p uint32) { yieldP.Store(p) }
+
+// Counts returns the per-site hit counts since process start.
+func Counts() [NumSites]int64 {
+	var out [NumSites]int64
+	for i := range counts {
+		out[i] = counts[i].Load()
+	}
+	return out
+}
+
+// SiteNames names the sites, for evidence.
+var SiteNames = [NumSites]string{"scan_token", "compile_node", "render_node", "loop_iter", "apply_filter", "expr_parse", "cycle", "trim_write", "drop_resolve"}
